@@ -4,9 +4,23 @@
    bit patterns that are not a cell are rejected or treated as the canonical cell they alias.
    Property theorems only: full statement, `exact <lemma>`, Print Assumptions.
 
+   The floating-point layer (lonlat_to_cell, cell_to_lonlat, cell_to_boundary; last part of the file)
+   is covered as far as its control structure goes, for EVERY number instance [ops T] (ideal reals,
+   interval enclosures): the outcome is never Panic / Diverge, for every word (every integer >= 0),
+   every integer resolution, every subdivision request; Err is returned exactly for a word that
+   does not decode, resp. a resolution outside -1..29; the world cell and its aliases are answered
+   without any arithmetic.  The third possible answer, [None] (a comparison could not be settled
+   from the enclosures), exists only in the interval instance.
+
    NOT covered by theorems here:
-   - the floating-point layer (lonlat_to_cell, cell_to_lonlat, cell_to_boundary): NaN and rounding
-     behaviour has no counterpart in the ideal-real model; that part of C14 is covered by the
+   - in the floating-point layer: NaN, infinities and rounding have no counterpart in the model (a
+     number operation of [ops T] always returns a number), so "no panic" says that no integer
+     operation, table access guarded by the model, or loop of the floating-point functions panics
+     or runs away, not that the f64 values are finite; the model reads the geometry tables with a
+     default entry (Geo/Cell.v [tab2], origin tables), so an out-of-table index would not show up as
+     Panic: for a decoded word the indices are in the tables by [C14_decoded_indices_in_bounds], for
+     the quintant of a lookup estimate see the header of Props/C01.v; a huge subdivision request
+     exhausts memory (allocation failure, next item).  That part of C14 is covered by the
      implementation-side search, run in both build profiles (overflow-checked and wrapping);
    - allocation failure (Vec growth aborts the process; the model only has the "capacity overflow"
      panic of Vec::with_capacity, see uncompact below);
@@ -15,6 +29,8 @@
 From Coq Require Import ZArith List Lia.
 From A5 Require Import Base.Outcome Base.Word Id.Codec Id.CodecSpec Id.Tree Id.TreeSpec
   Id.Compact Id.CompactSpec Id.CompactProofs Id.Hex Id.HexProofs Id.TotalProofs.
+From A5 Require Import Num.NumOps Geo.Authalic Geo.Tiling Geo.Projection Geo.Cell Geo.TotalGeoProofs.
+From A5 Require Geo.BoundaryProofs Geo.LookupProofs.
 Import ListNotations.
 Open Scope Z_scope.
 
@@ -186,3 +202,153 @@ Example C14_rejected_example :
   let i := 60 * 2 ^ 58 + 2 ^ 55 in
   0 <= i < two64 /\ deserialize i = Err /\ cell_to_parent i None = Err /\ cell_to_children i None = Err.
 Proof. exact rejected_example. Qed.
+
+(* ====================================================================================== *)
+(* ---------- the floating-point layer, for every number instance [OP : ops T] *)
+(* Outcomes are [option (out _)]: [None] = a comparison was not settled (interval instance only). *)
+
+(* Decoding never panics on any non-negative integer (not only below 2^64) ... *)
+Theorem C14_deserialize_no_panic_nonneg : forall id, 0 <= id ->
+  deserialize id <> Panic /\ deserialize id <> Diverge.
+Proof. exact deserialize_no_panic_nonneg. Qed.
+Print Assumptions C14_deserialize_no_panic_nonneg.
+
+(* ... and the face / quintant numbers it returns are inside the 12-row, 5-column geometry tables. *)
+Theorem C14_decoded_indices_in_bounds : forall id c, 0 <= id -> deserialize id = Ok c ->
+  0 <= origin_id c < 12 /\ 0 <= segment c < 5 /\ 0 <= s c < 2 ^ 58 /\ resolution c = get_resolution id.
+Proof. exact deserialize_indices_in_bounds. Qed.
+Print Assumptions C14_decoded_indices_in_bounds.
+
+(* ---------- cell_to_lonlat *)
+
+(* Never a panic, never divergence. *)
+Theorem C14_cell_to_lonlat_no_panic :
+  forall (T : Type) (OP : ops T) (id : Z), 0 <= id ->
+  cell_to_lonlat OP id <> Some Panic /\ cell_to_lonlat OP id <> Some Diverge.
+Proof. exact (@cell_to_lonlat_no_panic). Qed.
+Print Assumptions C14_cell_to_lonlat_no_panic.
+
+(* The error is returned exactly for a word that is not a cell (any integer). *)
+Theorem C14_cell_to_lonlat_err_iff :
+  forall (T : Type) (OP : ops T) (id : Z),
+  cell_to_lonlat OP id = Some Err <-> deserialize id = Err.
+Proof. exact (@cell_to_lonlat_err_iff). Qed.
+Print Assumptions C14_cell_to_lonlat_err_iff.
+
+(* All outcomes: undecided, the decoder's error, or a point. *)
+Theorem C14_cell_to_lonlat_total :
+  forall (T : Type) (OP : ops T) (id : Z), 0 <= id ->
+  cell_to_lonlat OP id = None \/
+  (cell_to_lonlat OP id = Some Err /\ deserialize id = Err) \/
+  exists p, cell_to_lonlat OP id = Some (Ok p).
+Proof. exact (@cell_to_lonlat_total). Qed.
+Print Assumptions C14_cell_to_lonlat_total.
+
+(* A word without resolution marker (the world cell 0 and every alias of it) is answered (0, 0). *)
+Theorem C14_cell_to_lonlat_world :
+  forall (T : Type) (OP : ops T) (id : Z),
+  get_resolution id = -1 -> cell_to_lonlat OP id = Some (Ok (o_ofZ OP 0, o_ofZ OP 0)).
+Proof. exact (@cell_to_lonlat_world). Qed.
+Print Assumptions C14_cell_to_lonlat_world.
+
+(* A point is returned only for a word that decodes; other than for the world cell it is the
+   unprojected centre of the decoded cell's outline. *)
+Theorem C14_cell_to_lonlat_ok_inv :
+  forall (T : Type) (OP : ops T) (id : Z) (p : T * T),
+  cell_to_lonlat OP id = Some (Ok p) ->
+  (get_resolution id = -1 /\ p = (o_ofZ OP 0, o_ofZ OP 0)) \/
+  (get_resolution id <> -1 /\
+   exists c pent theta phi, deserialize id = Ok c /\ get_pentagon OP c = Some pent /\
+     dodec_inverse OP (get_center OP pent) (origin_id c) = Some (theta, phi) /\
+     p = to_lon_lat OP theta phi).
+Proof. exact (@cell_to_lonlat_ok_inv). Qed.
+Print Assumptions C14_cell_to_lonlat_ok_inv.
+
+(* ---------- cell_to_boundary: every subdivision request (none, 0, negative, any size), open or closed *)
+
+Theorem C14_cell_to_boundary_no_panic :
+  forall (T : Type) (OP : ops T) (id : Z) (segs : option Z) (closed : bool), 0 <= id ->
+  cell_to_boundary OP id segs closed <> Some Panic /\ cell_to_boundary OP id segs closed <> Some Diverge.
+Proof. exact (@cell_to_boundary_no_panic). Qed.
+Print Assumptions C14_cell_to_boundary_no_panic.
+
+Theorem C14_cell_to_boundary_err_iff :
+  forall (T : Type) (OP : ops T) (id : Z) (segs : option Z) (closed : bool),
+  cell_to_boundary OP id segs closed = Some Err <-> deserialize id = Err.
+Proof. exact (@cell_to_boundary_err_iff). Qed.
+Print Assumptions C14_cell_to_boundary_err_iff.
+
+Theorem C14_cell_to_boundary_total :
+  forall (T : Type) (OP : ops T) (id : Z) (segs : option Z) (closed : bool), 0 <= id ->
+  cell_to_boundary OP id segs closed = None \/
+  (cell_to_boundary OP id segs closed = Some Err /\ deserialize id = Err) \/
+  exists ring, cell_to_boundary OP id segs closed = Some (Ok ring).
+Proof. exact (@cell_to_boundary_total). Qed.
+Print Assumptions C14_cell_to_boundary_total.
+
+(* The world cell and its aliases: the empty ring (same statement as C11_world). *)
+Theorem C14_cell_to_boundary_world :
+  forall (T : Type) (OP : ops T) (id : Z) (segs : option Z) (closed : bool),
+  get_resolution id = -1 -> cell_to_boundary OP id segs closed = Some (Ok []).
+Proof. exact (@BoundaryProofs.cell_to_boundary_world). Qed.
+Print Assumptions C14_cell_to_boundary_world.
+
+(* A ring is returned only for a word that decodes. *)
+Theorem C14_cell_to_boundary_ok_decodes :
+  forall (T : Type) (OP : ops T) (id : Z) (segs : option Z) (closed : bool) (ring : list (T * T)),
+  cell_to_boundary OP id segs closed = Some (Ok ring) -> exists c, deserialize id = Ok c.
+Proof. exact (@cell_to_boundary_ok_decodes). Qed.
+Print Assumptions C14_cell_to_boundary_ok_decodes.
+
+(* ---------- lonlat_to_cell: every pair of numbers, every integer resolution (restated from C01) *)
+
+Theorem C14_lookup_no_panic :
+  forall (T : Type) (OP : ops T) (lon lat : T) (r : Z),
+  lonlat_to_cell OP lon lat r <> Some Panic /\ lonlat_to_cell OP lon lat r <> Some Diverge.
+Proof. exact (@LookupProofs.lookup_no_panic). Qed.
+Print Assumptions C14_lookup_no_panic.
+
+(* The error is returned exactly for a resolution outside -1..29. *)
+Theorem C14_lookup_err_iff_range :
+  forall (T : Type) (OP : ops T) (lon lat : T) (r : Z),
+  lonlat_to_cell OP lon lat r = Some Err <-> (r < -1 \/ 29 < r).
+Proof. exact (@lookup_err_iff_range). Qed.
+Print Assumptions C14_lookup_err_iff_range.
+
+(* In range: undecided or an ID. *)
+Theorem C14_lookup_total :
+  forall (T : Type) (OP : ops T) (lon lat : T) (r : Z),
+  -1 <= r <= 29 ->
+  lonlat_to_cell OP lon lat r = None \/ exists id, lonlat_to_cell OP lon lat r = Some (Ok id).
+Proof. exact (@LookupProofs.lookup_total). Qed.
+Print Assumptions C14_lookup_total.
+
+(* The ID is valid: canonical, of the requested resolution ... *)
+Theorem C14_lookup_valid :
+  forall (T : Type) (OP : ops T) (lon lat : T) (r id : Z),
+  lonlat_to_cell OP lon lat r = Some (Ok id) -> get_resolution id = r /\ canonical_id id.
+Proof. exact (@LookupProofs.lookup_resolution). Qed.
+Print Assumptions C14_lookup_valid.
+
+(* ... and therefore accepted by the two inverse calls. *)
+Theorem C14_lookup_id_accepted :
+  forall (T : Type) (OP : ops T) (lon lat : T) (r id : Z),
+  lonlat_to_cell OP lon lat r = Some (Ok id) ->
+  cell_to_lonlat OP id <> Some Err /\
+  forall segs closed, cell_to_boundary OP id segs closed <> Some Err.
+Proof. exact (@lookup_id_accepted). Qed.
+Print Assumptions C14_lookup_id_accepted.
+
+(* cell_contains_point OP c lon lat : option T has no Err / Panic / Diverge outcome by its type: it
+   returns a number or is undecided; in the implementation its only fallible step, get_pentagon on
+   the world cell, is excluded by the resolution test made first (Geo/Cell.v, fixed defect D16). *)
+
+(* Non-vacuity of the hypothesis-free direction: a non-negative word that is rejected by all three. *)
+Example C14_geo_rejected_example :
+  forall (T : Type) (OP : ops T),
+  let i := 60 * 2 ^ 58 + 2 ^ 55 in
+  cell_to_lonlat OP i = Some Err /\ cell_to_boundary OP i None true = Some Err.
+Proof.
+  intros T OP i. destruct rejected_example as (_ & Hd & _).
+  split; [apply cell_to_lonlat_err_iff|apply cell_to_boundary_err_iff]; exact Hd.
+Qed.
